@@ -397,6 +397,46 @@ class Program:
             mi._const_state = {}
         for mi in self.modules.values():
             self._eval_module(mi)
+        for mi in self.modules.values():
+            self._eval_registries(mi)
+
+    def _eval_registries(self, mi):
+        """A module-level dict filled at import time by a registering decorator:
+            REG = {}
+            def register(key):
+                def deco(f): REG[key] = f; return f
+                return deco
+            @register(ast.Name)
+            def unparse_Name(...): ...
+        Its value after import is {key: function}; record it as the constant value of REG."""
+        tables: dict[str, dict] = {}
+        for fi in mi.functions.values():
+            for d in fi.node.decorator_list:
+                if not (isinstance(d, ast.Call) and isinstance(d.func, ast.Name) and len(d.args) == 1 and not d.keywords):
+                    continue
+                deco = mi.functions.get(d.func.id)
+                if deco is None:
+                    continue
+                dparams = [a.arg for a in deco.node.args.args]
+                inner = [n for n in ast.walk(deco.node) if isinstance(n, ast.FunctionDef) and n is not deco.node]
+                stores = [
+                    n for n in ast.walk(deco.node)
+                    if isinstance(n, ast.Assign) and len(n.targets) == 1 and isinstance(n.targets[0], ast.Subscript)
+                    and isinstance(n.targets[0].value, ast.Name) and isinstance(n.targets[0].slice, ast.Name)
+                    and dparams and n.targets[0].slice.id == dparams[0] and isinstance(n.value, ast.Name)
+                ]
+                if len(stores) != 1 or len(inner) != 1 or stores[0].value.id not in [a.arg for a in inner[0].args.args]:
+                    continue
+                reg = stores[0].targets[0].value.id
+                if not (reg in mi.consts and mi.consts[reg] == {}):
+                    continue
+                try:
+                    k = self.eval_const(mi, d.args[0])
+                except Exception:
+                    continue
+                tables.setdefault(reg, {})[k] = fi
+        for reg, tab in tables.items():
+            mi.consts[reg] = tab
 
     def _eval_module(self, mi):
         if getattr(mi, "_evaluated", False):
@@ -684,7 +724,7 @@ def _ann_classes(prog: Program, mi: ModuleInfo, ann):
     if isinstance(ann, ast.Subscript):
         base = ann.value
         nm = base.id if isinstance(base, ast.Name) else (base.attr if isinstance(base, ast.Attribute) else None)
-        if nm in ("list", "set", "List", "Set", "Iterator", "Iterable", "Sequence", "tuple"):
+        if nm in ("list", "set", "List", "Set", "Iterator", "Iterable", "Sequence", "tuple", "deque", "Deque", "frozenset", "FrozenSet", "MutableSequence", "Collection", "Generator", "Tuple", "Reversible"):
             inner = ann.slice
             if isinstance(inner, ast.Tuple):
                 inner = inner.elts[0]
@@ -894,6 +934,17 @@ class Typer:
                 pass
             return [("unknown", ast.unparse(f))]
         if isinstance(f, ast.Call):
+            # factory(...)(...): whatever classes / functions the factory returns by name
+            out = []
+            for tgt in self.call_targets(fi, f, locals_, typed_only=True):
+                if isinstance(tgt, FuncInfo):
+                    for n in ast.walk(tgt.node):
+                        if isinstance(n, ast.Return) and isinstance(n.value, (ast.Name, ast.Attribute)):
+                            r = prog.resolve_expr_static(tgt.module, n.value)
+                            if isinstance(r, (ClassInfo, FuncInfo)) and r not in out:
+                                out.append(r)
+            if out:
+                return out
             # type(self.node)(**...) and friends
             return [("dynamic", ast.unparse(f)[:60])]
         return [("unknown", ast.unparse(f)[:60])]
@@ -955,6 +1006,7 @@ class CallGraph:
         self.unresolved: list[tuple[str, str]] = []
         self.ext_calls: dict[str, set[str]] = {}
         self.call_sites: dict[str, list] = {}
+        self.guessed_edges: set[tuple[str, str]] = set()
         for fi in prog.all_functions():
             self._add_func(fi)
         # module-level code as pseudo functions
@@ -971,8 +1023,12 @@ class CallGraph:
         loc = self.typer.local_types(fi)
         for n in ast.walk(fi.node):
             if isinstance(n, ast.Call):
+                typed = self.typer.call_targets(fi, n, loc, typed_only=True) if isinstance(n.func, ast.Attribute) else None
                 for tgt in self.typer.call_targets(fi, n, loc):
                     self._edge(fi, n, tgt)
+                    if typed is not None and not typed and isinstance(tgt, FuncInfo):
+                        # receiver of unknown type: every method of that name (class-hierarchy fallback)
+                        self.guessed_edges.add((fi.fq, tgt.fq))
 
     def _edge(self, fi, call, tgt):
         if isinstance(tgt, ClassInfo):
